@@ -2,16 +2,16 @@
   D128/Proofs/LogAccSpec.lean — **`log_spec`**: the working value returned by `Gen.decomposed192.log` against `Real.log`.
 
   For `d.sig ≠ 0`, `|d.exp| ≤ 16000`, `X = val d`:
-    `log d = .ok (neg, x, t)`, no panic, flag in `{0,1,-1}`, `|x.exp| ≤ 5500`, and with the decomposition
-    `X = v·10^e0`, `M = ⌊10v⌋ ∈ [10,99]`, the computed quotient `F ∈ [0, 1/(2M)]` and series value `S ∈ [F, 2F]`:
+    `log d = .ok (neg, x, t)`, no panic, flag in `{0,1,-1}`, `-5930 ≤ x.exp ≤ 5500`, and with the decomposition
+    `X = v·10^e0`, `M = ⌊10v⌋ ∈ [10,99]`, the computed quotient `F ∈ [0, 1/(2M)]` and series value `S ∈ [F, 1.01·F]`:
       `neg = (e0 < 0)`   (so `neg ↔ X < 1`)
-      `|val x − |ln X|| ≤ errLog |e0| [M≠10] S F = 2·tailR F + (16·|e0| + 7·[M≠10] + 192·S)·10^-57`
+      `|val x − |ln X|| ≤ errLog |e0| [M≠10] S F = 2·tailR F + (16·|e0| + 7·[M≠10] + 231·S)·10^-57`
       `10v = M → F = 0`            (exact first reduction: the series vanishes)
       `M = 10 → e0 = 0 → 199/100·S ≤ ln X`   (the result is the series itself)
-  `tailR F = F^27/(27(1−F²))` is the truncation of the artanh series after the 25th power.
-  * `tailR_le`  : `0 ≤ F ≤ 1/20 → tailR F ≤ F^27/26`
+  `tailR F = F^35/(35(1−F²))` is the truncation of the artanh series after the 33rd power.
+  * `tailR_le`  : `0 ≤ F ≤ 1/20 → tailR F ≤ F^35/34`
   * `ln10v_table`, `lnM_table` : the table constants against `Real.log 10`, `Real.log (M/10)` (from EnclosureTables)
-  * `core_estimate` : `|2R − ln q| ≤ 2·tailR F + (2[M≠10] + 178·S)·10^-57`  (first reduction, quotient, series)
+  * `core_estimate` : `|2R − ln q| ≤ 2·tailR F + (2[M≠10] + 217·S)·10^-57`  (first reduction, quotient, series)
   * `caseA_lower`, `err_total` : the two real-arithmetic lemmas `log_spec` is assembled from
 -/
 import D128.Proofs.LogAccReal
@@ -22,19 +22,19 @@ namespace LogAcc
 open Gen D192 Root
 
 /-- the error budget of `log` -/
-noncomputable def errLog (K : ℕ) (m S F : ℝ) : ℝ := 2 * tailR F + (16 * (K : ℝ) + 7 * m + 192 * S) / 10 ^ 57
+noncomputable def errLog (K : ℕ) (m S F : ℝ) : ℝ := 2 * tailR F + (16 * (K : ℝ) + 7 * m + 231 * S) / 10 ^ 57
 
 theorem tailR_nonneg (F : ℝ) (h0 : 0 ≤ F) (h1 : F ≤ 1 / 20) : 0 ≤ tailR F := by
   unfold tailR
   have : 0 < 1 - F * F := by nlinarith
   positivity
 
-theorem tailR_le (F : ℝ) (h0 : 0 ≤ F) (h1 : F ≤ 1 / 20) : tailR F ≤ F ^ 27 / 26 := by
+theorem tailR_le (F : ℝ) (h0 : 0 ≤ F) (h1 : F ≤ 1 / 20) : tailR F ≤ F ^ 35 / 34 := by
   unfold tailR
   have h2 : F * F ≤ 1 / 400 := by nlinarith
-  have hden : (26 : ℝ) ≤ ((2 * 13 + 1 : ℕ) : ℝ) * (1 - F * F) := by
+  have hden : (34 : ℝ) ≤ ((2 * 17 + 1 : ℕ) : ℝ) * (1 - F * F) := by
     push_cast; nlinarith
-  have e : F * (F * F) ^ 13 = F ^ 27 := by ring
+  have e : F * (F * F) ^ 17 = F ^ 35 := by ring
   rw [e]
   exact div_le_div_of_nonneg_left (by positivity) (by norm_num) hden
 
@@ -89,8 +89,8 @@ theorem core_estimate (m q V2 S Rr F : ℝ)
     (hm : m = 0 ∨ m = 1) (hq1 : V2 ≤ q) (hq2 : q * (1 - m * ((lam : ℚ) : ℝ)) ≤ V2) (hV2 : 1 ≤ V2)
     (hqhi : q ≤ 11 / 10)
     (hser : |Real.log V2 - 2 * S| ≤ 2 * tailR F + 5 / 10 ^ 56 * S)
-    (hR1 : S * (1 - ((lam : ℚ) : ℝ)) ^ 38 ≤ Rr) (hR2 : Rr ≤ S) (hS0 : 0 ≤ S) :
-    |2 * Rr - Real.log q| ≤ 2 * tailR F + (2 * m + 178 * S) / 10 ^ 57 := by
+    (hR1 : S * (1 - ((lam : ℚ) : ℝ)) ^ 50 ≤ Rr) (hR2 : Rr ≤ S) (hS0 : 0 ≤ S) :
+    |2 * Rr - Real.log q| ≤ 2 * tailR F + (2 * m + 217 * S) / 10 ^ 57 := by
   have hl := lamR_pos
   have hle := lamR_le
   have hm0 : 0 ≤ m := by rcases hm with h | h <;> simp [h]
@@ -115,18 +115,18 @@ theorem core_estimate (m q V2 S Rr F : ℝ)
       exact mul_le_mul_of_nonneg_left (by norm_num) hm0
     linarith
   -- S − R ∈ [0, 38 lam S]
-  have hbern : 1 - 38 * ((lam : ℚ) : ℝ) ≤ (1 - ((lam : ℚ) : ℝ)) ^ 38 := by
-    have := one_add_mul_le_pow (a := -((lam : ℚ) : ℝ)) (by linarith [show (1 : ℝ) / (6 * 10 ^ 56) ≤ 1 by norm_num]) 38
-    have e : (1 : ℝ) + (38 : ℕ) * -((lam : ℚ) : ℝ) = 1 - 38 * ((lam : ℚ) : ℝ) := by push_cast; ring
+  have hbern : 1 - 50 * ((lam : ℚ) : ℝ) ≤ (1 - ((lam : ℚ) : ℝ)) ^ 50 := by
+    have := one_add_mul_le_pow (a := -((lam : ℚ) : ℝ)) (by linarith [show (1 : ℝ) / (6 * 10 ^ 56) ≤ 1 by norm_num]) 50
+    have e : (1 : ℝ) + (50 : ℕ) * -((lam : ℚ) : ℝ) = 1 - 50 * ((lam : ℚ) : ℝ) := by push_cast; ring
     have e2 : (1 : ℝ) + -((lam : ℚ) : ℝ) = 1 - ((lam : ℚ) : ℝ) := by ring
     rw [e, e2] at this; exact this
-  have hSR : S - Rr ≤ 38 / (6 * 10 ^ 56) * S := by
-    have : S * (1 - 38 * ((lam : ℚ) : ℝ)) ≤ Rr := le_trans (mul_le_mul_of_nonneg_left hbern hS0) hR1
+  have hSR : S - Rr ≤ 50 / (6 * 10 ^ 56) * S := by
+    have : S * (1 - 50 * ((lam : ℚ) : ℝ)) ≤ Rr := le_trans (mul_le_mul_of_nonneg_left hbern hS0) hR1
     nlinarith
   have hs := abs_le.mp hser
-  have e : (2 * m + 178 * S) / 10 ^ 57 = 2 * m / 10 ^ 57 + 5 / 10 ^ 56 * S + 128 / 10 ^ 57 * S := by ring
-  have h14 : 2 * (38 / (6 * 10 ^ 56) * S) ≤ 128 / 10 ^ 57 * S := by nlinarith
-  have h14' : 0 ≤ 128 / 10 ^ 57 * S := by positivity
+  have e : (2 * m + 217 * S) / 10 ^ 57 = 2 * m / 10 ^ 57 + 5 / 10 ^ 56 * S + 167 / 10 ^ 57 * S := by ring
+  have h14 : 2 * (50 / (6 * 10 ^ 56) * S) ≤ 167 / 10 ^ 57 * S := by nlinarith
+  have h14' : 0 ≤ 167 / 10 ^ 57 * S := by positivity
   have hmm2 : 0 ≤ 2 * m / 10 ^ 57 := by positivity
   rw [abs_le, e]
   constructor <;> linarith [hs.1, hs.2]
@@ -142,14 +142,14 @@ theorem caseA_lower (V S F : ℝ) (hser : |Real.log V - 2 * S| ≤ 2 * tailR F +
   have hS0 : 0 ≤ S := le_trans hF0 hFS
   have hs := (abs_le.mp hser).1
   have ht := tailR_le F hF0 hF20
-  have hc : (1 / 20 : ℝ) ^ 26 ≤ 1 / 10 ^ 33 := by norm_num
-  have hp : F ^ 27 ≤ 1 / 10 ^ 33 * S := by
-    have e : F ^ 27 = F ^ 26 * F := by ring
+  have hc : (1 / 20 : ℝ) ^ 34 ≤ 1 / 10 ^ 44 := by norm_num
+  have hp : F ^ 35 ≤ 1 / 10 ^ 44 * S := by
+    have e : F ^ 35 = F ^ 34 * F := by ring
     rw [e]
-    exact mul_le_mul (le_trans (pow_le_pow_left₀ hF0 hF20 26) hc) hFS hF0 (by positivity)
-  have h2 : F ^ 27 / 26 ≤ 1 / 10 ^ 33 * S / 26 := div_le_div_of_nonneg_right hp (by norm_num)
-  have h3 : 2 * (1 / 10 ^ 33 * S / 26) ≤ 1 / 1000 * S := by
-    have e : 2 * (1 / 10 ^ 33 * S / 26) = 2 / (26 * 10 ^ 33) * S := by ring
+    exact mul_le_mul (le_trans (pow_le_pow_left₀ hF0 hF20 34) hc) hFS hF0 (by positivity)
+  have h2 : F ^ 35 / 34 ≤ 1 / 10 ^ 44 * S / 34 := div_le_div_of_nonneg_right hp (by norm_num)
+  have h3 : 2 * (1 / 10 ^ 44 * S / 34) ≤ 1 / 1000 * S := by
+    have e : 2 * (1 / 10 ^ 44 * S / 34) = 2 / (34 * 10 ^ 44) * S := by ring
     rw [e]; exact mul_le_mul_of_nonneg_right (by norm_num) hS0
   have h4 : (5 : ℝ) / 10 ^ 56 * S ≤ 1 / 1000 * S := mul_le_mul_of_nonneg_right (by norm_num) hS0
   linarith
@@ -157,13 +157,13 @@ theorem caseA_lower (V S F : ℝ) (hser : |Real.log V - 2 * S| ≤ 2 * tailR F +
 /-- the total error of `log`, from the estimate of the tail stage and the component estimates -/
 theorem err_total (K m S T R l10 lM L10 LM Lq B L x : ℝ) (hK : 0 ≤ K) (hm : m = 0 ∨ m = 1)
     (hR0 : 0 ≤ R) (hRS : R ≤ S)
-    (hcore : |2 * R - Lq| ≤ 2 * T + (2 * m + 178 * S) / 10 ^ 57)
+    (hcore : |2 * R - Lq| ≤ 2 * T + (2 * m + 217 * S) / 10 ^ 57)
     (h10 : |l10 - L10| ≤ 1 / 2 / 10 ^ 57) (hM : |lM - LM| ≤ m * (1 / 2 / 10 ^ 57))
     (hl10 : l10 ≤ 231 / 100) (hlM : lM ≤ 231 / 100 * m)
     (hBL : (B = 2 * R + K * l10 + lM ∧ L = K * L10 + LM + Lq) ∨
            (B = K * l10 - 2 * R - lM ∧ L = -(K * L10) + LM + Lq))
     (hxB : |x - (|B|)| ≤ ((lam : ℚ) : ℝ) * (4 * (K * l10 + 2 * R) + lM)) :
-    |x - (|L|)| ≤ 2 * T + (16 * K + 7 * m + 192 * S) / 10 ^ 57 := by
+    |x - (|L|)| ≤ 2 * T + (16 * K + 7 * m + 231 * S) / 10 ^ 57 := by
   have hl := lamR_pos
   have hle := lamR_le
   have hm0 : 0 ≤ m := by rcases hm with h | h <;> simp [h]
@@ -174,10 +174,10 @@ theorem err_total (K m S T R l10 lM L10 LM Lq B L x : ℝ) (hK : 0 ≤ K) (hm : 
   have hK1 : K * (l10 - L10) ≤ K * (1 / 2 / 10 ^ 57) := mul_le_mul_of_nonneg_left h10t.2 hK
   have hK2 : K * (-(1 / 2 / 10 ^ 57)) ≤ K * (l10 - L10) := mul_le_mul_of_nonneg_left h10t.1 hK
   have hmm : 0 ≤ m * (1 / 2 / 10 ^ 57) := by positivity
-  have key : |(|B|) - (|L|)| ≤ 2 * T + (K / 2 + 3 * m + 178 * S) / 10 ^ 57 := by
-    have ebound : 2 * T + (K / 2 + 3 * m + 178 * S) / 10 ^ 57
+  have key : |(|B|) - (|L|)| ≤ 2 * T + (K / 2 + 3 * m + 217 * S) / 10 ^ 57 := by
+    have ebound : 2 * T + (K / 2 + 3 * m + 217 * S) / 10 ^ 57
         = K * (1 / 2 / 10 ^ 57) + m * (1 / 2 / 10 ^ 57) + m * (1 / 2 / 10 ^ 57)
-          + (2 * T + (2 * m + 178 * S) / 10 ^ 57) := by ring
+          + (2 * T + (2 * m + 217 * S) / 10 ^ 57) := by ring
     rcases hBL with ⟨hB, hL⟩ | ⟨hB, hL⟩
     · refine le_trans (abs_abs_sub_abs_le_abs_sub _ _) ?_
       rw [hB, hL, ebound, abs_le]
@@ -209,19 +209,20 @@ theorem err_total (K m S T R l10 lM L10 LM Lq B L x : ℝ) (hK : 0 ≤ K) (hm : 
             rw [e]
             apply div_le_div_of_nonneg_right _ (by positivity)
             linarith
-  have efin : 2 * T + (16 * K + 7 * m + 192 * S) / 10 ^ 57
-      = (2 * T + (K / 2 + 3 * m + 178 * S) / 10 ^ 57) + (31 / 2 * K + 4 * m + 14 * S) / 10 ^ 57 := by ring
+  have efin : 2 * T + (16 * K + 7 * m + 231 * S) / 10 ^ 57
+      = (2 * T + (K / 2 + 3 * m + 217 * S) / 10 ^ 57) + (31 / 2 * K + 4 * m + 14 * S) / 10 ^ 57 := by ring
   rw [efin, abs_le]
   constructor <;> linarith [hk.1, hk.2, hxb.1, hxb.2]
 
+set_option maxHeartbeats 600000 in
 /-- **`log_spec`**: the working value of `decomposed192.log` against the real logarithm. -/
 theorem log_spec (d : decomposed192) (hd : d.sig.toNat ≠ 0)
     (he : -16000 ≤ d.exp.toInt ∧ d.exp.toInt ≤ 16000) :
     ∃ (neg : Bool) (x : decomposed192) (t : Int8) (e0 : ℤ) (M : ℤ) (v S F : ℝ),
-      Gen.decomposed192.log d = .ok (neg, x, t) ∧ flag3 t ∧ -5500 ≤ x.exp.toInt ∧ x.exp.toInt ≤ 5500 ∧
+      Gen.decomposed192.log d = .ok (neg, x, t) ∧ flag3 t ∧ -5930 ≤ x.exp.toInt ∧ x.exp.toInt ≤ 5500 ∧
       ((val d : ℚ) : ℝ) = v * (10 : ℝ) ^ e0 ∧ -16000 ≤ e0 ∧ e0 ≤ 16057 ∧ 10 ≤ M ∧ M ≤ 99 ∧
       (M : ℝ) ≤ 10 * v ∧ 10 * v < (M : ℝ) + 1 ∧
-      0 ≤ F ∧ F ≤ 1 / (2 * (M : ℝ)) ∧ F ≤ S ∧ S ≤ 2 * F ∧
+      0 ≤ F ∧ F ≤ 1 / (2 * (M : ℝ)) ∧ F ≤ S ∧ S ≤ 101 / 100 * F ∧
       (10 * v = (M : ℝ) → F = 0) ∧
       (M = 10 → e0 = 0 → 199 / 100 * S ≤ Real.log ((val d : ℚ) : ℝ)) ∧
       neg = decide (e0 < 0) ∧
@@ -271,14 +272,14 @@ theorem log_spec (d : decomposed192) (hd : d.sig.toNat ≠ 0)
     have : ((f : ℚ) : ℝ) ≤ (((v2 - 1) / (v2 + 1) * ((1 + Root.eps) / (1 - lam)) : ℚ) : ℝ) := Rat.cast_le.mpr hf2
     push_cast at this; exact this
   have hser := log_v2_series (v2 : ℝ) f hV2a hf0 hf20 hfloR hfhiR
-  set S : ℝ := ((Sj f 12 : ℚ) : ℝ) with hS
-  have hFS : (f : ℝ) ≤ S := by rw [hS]; exact_mod_cast Sj_ge f hf0 12
-  have hS2F : S ≤ 2 * (f : ℝ) := by
-    have : ((Sj f 12 : ℚ) : ℝ) ≤ ((2 * f : ℚ) : ℝ) := Rat.cast_le.mpr (Sj_le_two_mul f hf0 hf20 12)
+  set S : ℝ := ((Sj f 16 : ℚ) : ℝ) with hS
+  have hFS : (f : ℝ) ≤ S := by rw [hS]; exact_mod_cast Sj_ge f hf0 16
+  have hS2F : S ≤ 101 / 100 * (f : ℝ) := by
+    have : ((Sj f 16 : ℚ) : ℝ) ≤ ((101 / 100 * f : ℚ) : ℝ) := Rat.cast_le.mpr (Sj_le_101 f hf0 hf20 16)
     push_cast at this; exact this
   have hS0 : 0 ≤ S := le_trans hF0 hFS
-  have hRR1 : S * (1 - ((lam : ℚ) : ℝ)) ^ 38 ≤ (R : ℝ) := by
-    have : ((Sj f 12 * (1 - lam) ^ 38 : ℚ) : ℝ) ≤ ((R : ℚ) : ℝ) := Rat.cast_le.mpr hR1
+  have hRR1 : S * (1 - ((lam : ℚ) : ℝ)) ^ 50 ≤ (R : ℝ) := by
+    have : ((Sj f 16 * (1 - lam) ^ 50 : ℚ) : ℝ) ≤ ((R : ℚ) : ℝ) := Rat.cast_le.mpr hR1
     push_cast at this; exact this
   have hRR2 : (R : ℝ) ≤ S := by rw [hS]; exact_mod_cast hR2
   have hR0 : (0 : ℝ) ≤ (R : ℝ) := by
